@@ -387,6 +387,10 @@ def _create_unless(terminals, g_regex_flags, re_, use_bytes):
                 unless.append(strtok)
                 if strtok.pattern.flags <= retok.pattern.flags:
                     embedded_strs.add(strtok)
+            elif 'i' in strtok.pattern.flags:
+                # The regexp may match another spelling of a case-insensitive string than the one written in the grammar
+                # ("SELECT"i vs. /[a-z]+/ on 'select'). UnlessCallback compares the matched text itself.
+                unless.append(strtok)
         if unless:
             callback[retok.name] = UnlessCallback(Scanner(unless, g_regex_flags, re_, use_bytes=use_bytes))
 
